@@ -30,6 +30,7 @@ type world struct {
 	mapIdx int
 	chunkI int
 	tempN  int
+	inos   map[*node]uint64
 	clockN int64
 	faults map[int][]int // step -> indices into spec.Faults
 	fired  []bool
@@ -48,7 +49,14 @@ func (w *world) load(s Spec) {
 	nodes := append([]Node(nil), s.FS...)
 	sort.SliceStable(nodes, func(i, j int) bool { return len(nodes[i].Path) < len(nodes[j].Path) })
 	for _, n := range nodes {
-		w.install(n)
+		if n.Kind != "h" {
+			w.install(n)
+		}
+	}
+	for _, n := range nodes {
+		if n.Kind == "h" { // hard links last: their targets exist by now
+			w.install(n)
+		}
 	}
 	w.mkdirAllRaw(w.cwd)
 	w.faults = map[int][]int{}
@@ -74,6 +82,12 @@ func (w *world) install(n Node) {
 		}
 	case "l":
 		d.children[base] = &node{kind: 'l', target: n.Target}
+	case "h":
+		// a second NAME for the file Target (absolute path): one node under two directory entries - same bytes, same
+		// identity (os.SameFile, inode number), writes through one name are seen through the other
+		if t, _, _, errno := w.lookup(n.Target, true); errno == 0 && t.kind == 'f' {
+			d.children[base] = t
+		}
 	default:
 		d.children[base] = &node{kind: 'f', data: append([]byte(nil), n.Data...)}
 	}
@@ -368,7 +382,33 @@ func (fi fileInfo) Mode() fs.FileMode {
 }
 func (fi fileInfo) ModTime() time.Time { return fi.mt }
 func (fi fileInfo) IsDir() bool        { return fi.n.kind == 'd' }
-func (fi fileInfo) Sys() any           { return nil }
+
+// Sys: like the real thing on Linux, a *syscall.Stat_t - with an inode number that is the node's identity (two names
+// of one hard-linked file share it) and the number of names.
+func (fi fileInfo) Sys() any {
+	if w.inos == nil {
+		w.inos = map[*node]uint64{}
+	}
+	ino, ok := w.inos[fi.n]
+	if !ok {
+		ino = uint64(1000 + len(w.inos))
+		w.inos[fi.n] = ino
+	}
+	nlink := 0
+	var walk func(n *node)
+	walk = func(n *node) {
+		for _, c := range n.children {
+			if c == fi.n {
+				nlink++
+			}
+			if c.kind == 'd' {
+				walk(c)
+			}
+		}
+	}
+	walk(w.root)
+	return &syscall.Stat_t{Dev: 2049, Ino: ino, Nlink: uint64(max(nlink, 1)), Size: fi.Size(), Blksize: 4096}
+}
 
 func (w *world) info(name string, n *node) fileInfo {
 	return fileInfo{name: filepath.Base(name), n: n, mt: time.Unix(w.spec.Clock, 0).UTC()}
